@@ -45,7 +45,7 @@ func betweenValues() []TV {
 	}
 }
 
-const c17Rule = "every value shape of the universe (all scalar kinds, typed slices incl. empty and typed-nil, []interface{} mixes with nil / nested / bool elements, arrays, maps, pointers, channels, funcs, structs, complex, untyped nil) x {common, number, string-hash, number-range} x {ParseValue, ParseAssign}; a zoo of numeric/decimal/malformed strings, extreme integers and floats; range descriptions (well formed, malformed, step<=0 under a 2 s / 600 MB guard in a child process); ParseIntergers/ParseIntegerNumber/NilInterface/ParseAcMatchDict/BuildAcMatchContent on all shapes; ParseRange for GT/LT/Between/unknown operator on all shapes and on between pairs of every typing; end-to-end: every accepted value indexed on a field using that parser/container and queried with the values it denotes. RangeIdx histories over configured domains [RangeMin,RangeMax) with ranges at the domain's edges; Non-trivial = the value is accepted (ids/values produced); distinct = distinct input"
+const c17Rule = "every value shape of the universe (all scalar kinds, typed slices incl. empty and typed-nil, []interface{} mixes with nil / nested / bool elements, arrays, maps, pointers, channels, funcs, structs, complex, untyped nil) x {common, number, string-hash, number-range} x {ParseValue, ParseAssign}; a zoo of numeric/decimal/malformed strings, extreme integers and floats; range descriptions (well formed, malformed, step<=0 under a 2 s / 600 MB guard in a child process); ParseIntergers/ParseIntegerNumber/NilInterface/ParseAcMatchDict/BuildAcMatchContent on all shapes; ParseRange for GT/LT/Between/unknown operator on all shapes and on between pairs of every typing; end-to-end: every accepted value indexed on a field using that parser/container and queried with the values it denotes. RangeIdx histories over configured domains [RangeMin,RangeMax) with ranges at the domain's edges; ParseRange also as a holder with EnableFloat2Int=false calls it (PCRangeNF); Non-trivial = the value is accepted (ids/values produced); distinct = distinct input"
 
 // denseAllocatorCases: the common parser with the library's dense id allocator (set through the exported field): the
 // first text a parser ever sees gets id 0 -- accepted at indexing time, it must be matched at query time in every
@@ -91,6 +91,7 @@ func init() {
 				}
 				for _, op := range []int{1, 2, 3, 7} {
 					add(pIn{K: "range", Op: op, V: v})
+					add(pIn{K: "rangenf", Op: op, V: v}) // ... and as a holder with EnableFloat2Int = false decodes it
 				}
 			}
 			for _, v := range betweenValues() {
